@@ -201,7 +201,7 @@ def pHeaders : P Headers := do
       let it ← pBool01
       let es ← pEntries
       pure (.pairs es it)
-  | "Q" => do pure (.opaque (← pBool01))
+  | "Q" => do pure (.inert (← pBool01))
   | t => throw s!"headers:{t}"
 
 def pExcRec : P ExcRec := do
@@ -268,7 +268,7 @@ def parseBranch (lim : Nat) (value : String) (oracle : String → DateAns) : Str
 def lookupStep (lim : Nat) (h : Headers) (name : String) : String :=
   match h with
   | .absent => "absent"
-  | .opaque _ => "opaque"
+  | .inert _ => "inert"
   | .pairs .. => "scan"
   | .mapping es ci gr _ | .getter es ci gr _ _ _ =>
       match getPhase lim gr ci es name with
